@@ -6,7 +6,13 @@ Trace == ndJsonDeserialize(IOEnv.TRACE)
 VARIABLE l
 If(c, name) == IF c THEN {name} ELSE {}
 NonDecreasing(s) == \A i \in 1..(Len(s) - 1) : s[i] = 0 \/ s[i + 1] = 0 \/ s[i] <= s[i + 1]
+WaitClauses(r) ==
+       If(r.stateBlocked, "C07_State_reports_the_error_of_an_aborted_attempt")
+  \cup If(~r.stateBlocked /\ ~r.stateErrSeen, "C07_State_reports_the_error_of_an_aborted_attempt")
+  \cup If(~r.headReached, "C07_next_learned_head_resumes_from_the_store_head_and_completes")
+  \cup If(~r.waitReturned, "C07_SyncWait_returns")
 Clauses(r) ==
+  IF r.op = "syncWaitFailure" THEN WaitClauses(r) ELSE
        If(r.op = "stalePending" /\ r.via = "gossip" /\ r.siblingH <= r.storeHead /\ r.siblingRes = "nil",
           "C03_header_of_an_already_stored_height_is_refused_with_an_error")
   \cup If(r.sibStored, "C03_refused_header_never_stored")
